@@ -62,7 +62,7 @@ Lemma deriv_shape d deps f :
     nth_error (fl_design fb) f = Some fd /\ ff_window fd = Some w /\ nth_error (ff_levels fd) l = Some lv /\
     f < nf fb /\ l < nlevels fb f /\ d = off fb f + l /\
     deps = map (entry_deps (win_deps w)) (lv_accepts lv) /\
-    Forall (fun dd => dd < f) (win_deps w) /\
+    Forall (fun dd => dd < nf fb) (win_deps w) /\
     Forall (fun entry => entry_ok fb (win_deps w) entry = true) (lv_accepts lv).
 Proof.
   intros Hin. pose proof (in_f1_facts fb HF1) as F. pose proof (f1_derivations fb F) as HD.
@@ -82,7 +82,7 @@ Proof.
   assert (Hd' : d = off fb f + l) by congruence.
   destruct (f1_tables fb F f fd Efd) as [Htab _]. unfold tables_ok in Htab. rewrite Ew in Htab.
   apply andb_true_iff in Htab. destruct Htab as [Hlt Hent]. rewrite forallb_forall in Hlt, Hent.
-  assert (Hlt' : Forall (fun dd => dd < f) (win_deps w)).
+  assert (Hlt' : Forall (fun dd => dd < nf fb) (win_deps w)).
   { apply Forall_forall. intros dd Hdd. apply Nat.ltb_lt. now apply Hlt. }
   assert (Hent' : Forall (fun entry => entry_ok fb (win_deps w) entry = true) (lv_accepts lv)).
   { specialize (Hent lv (nth_error_In _ _ Elv)). rewrite forallb_forall in Hent. now apply Forall_forall. }
